@@ -73,8 +73,18 @@ func evalInterval(v ssa.Value, leaves map[string]Interval, max uint64, depth int
 		}
 	case *ssa.Phi:
 		out := Interval{max, 0}
-		for _, e := range x.Edges {
+		for i, e := range x.Edges {
 			iv := evalInterval(e, leaves, max, depth+1)
+			// what the branch taken on this edge says about the incoming value (`if v == 0 { v = 1 }`)
+			if i < len(x.Block().Preds) {
+				key := ExprKey(e)
+				for _, cd := range CondsOnEdgeTo(x.Block().Preds[i], x.Block()) {
+					f := FactOf(cd)
+					if lb, ok := f.LowerBound(key); ok && lb >= 0 && uint64(lb) > iv.Lo {
+						iv.Lo = uint64(lb)
+					}
+				}
+			}
 			out.Lo = minU(out.Lo, iv.Lo)
 			out.Hi = maxU(out.Hi, iv.Hi)
 		}
